@@ -482,6 +482,10 @@ func (env *Env) call(n *ast.CallExpr) Term {
 			// two slices do not share a backing row
 			a, b := env.ev(n.Args[0]), env.ev(n.Args[1])
 			return boolT(or(eq(app("s_base", a.S), "0"), not(eq(app("s_base", a.S), app("s_base", b.S)))))
+		case "inheap":
+			// the type invariant of a reference/slice value in the current state (allocated before now)
+			v := env.ev(n.Args[0])
+			return boolT(env.e.typeInv(v, env.heap))
 		case "isobj":
 			// a top-level heap object (not an interior pointer to an embedded struct, not nil)
 			v := env.ev(n.Args[0])
